@@ -46,6 +46,67 @@ def eval_chunk(args):
     return out
 
 
+# one minimal document per rewrite kind, with hand-computed receipts (kind, original, line, column)
+SITES = [
+    ("alias ->", "===D===\nK::A->B\n===END===\n", [("normalization", "->", 2, 5)]),
+    ("alias +", "===D===\nK::A+B\n===END===\n", [("normalization", "+", 2, 5)]),
+    ("alias ~", "===D===\nK::A~B\n===END===\n", [("normalization", "~", 2, 5)]),
+    ("alias vs", "===D===\nK::A vs B\n===END===\n", [("normalization", "vs", 2, 6)]),
+    ("alias <->", "===D===\nK::A<->B\n===END===\n", [("normalization", "<->", 2, 5)]),
+    ("alias |", "===D===\nK::A|B\n===END===\n", [("normalization", "|", 2, 5)]),
+    ("alias & in list", "===D===\nK::[A&B,C]\n===END===\n", [("normalization", "&", 2, 6)]),
+    ("alias # section", "===D===\n#1::S\n  K::1\n===END===\n", [("normalization", "#", 2, 1)]),
+    ("alias in block target", "===D===\nB[->#T]:\n  K::1\n===END===\n", [("normalization", "->", 2, 3), ("normalization", "#", 2, 5)]),
+    ("two aliases one line", "===D===\nK::A->B+C\n===END===\n", [("normalization", "->", 2, 5), ("normalization", "+", 2, 8)]),
+    ("triple quotes", '===D===\nK::"""x y"""\n===END===\n', [("normalization", '"""', 2, 4)]),
+    ("empty triple quotes", '===D===\nK::""""""\n===END===\n', [("normalization", '"""', 2, 4)]),
+    ("multi-line triple then rewrites on the closing line", '===D===\nP::["""first\nsecond""", A->B, """x"""]\n===END===\n',
+     [("normalization", '"""', 2, 5), ("normalization", "->", 3, 13), ("normalization", '"""', 3, 18)]),
+    ("multi-word", "===D===\nK::alpha beta gamma\n===END===\n", [("multi_word_coalesce", None, 2, 4)]),
+    ("multi-word after alias line", "===D===\nJ::A->B\nK::alpha beta\n===END===\n", [("normalization", "->", 2, 5), ("multi_word_coalesce", None, 3, 4)]),
+]
+
+
+def site_matrix(ctx, findings):
+    """every rewrite kind alone through all four surfaces, with exact positions."""
+    from octave_mcp.mcp.validate import ValidateTool
+    from octave_mcp.mcp.write import WriteTool
+    with tempfile.TemporaryDirectory() as td:
+        for name, text, exp in SITES:
+            case = {"text": text, "site": name, "entry": "tools"}
+            ctx.case({"text": text, "site": name})
+            pw = T.py_parse_warn(text)
+            if "err" in pw:
+                X.classify(ctx, findings, CLASSES, case, f"reader rejects: {pw['err']}", "rejected")
+                continue
+            got = sorted(((x[0], x[1] if x[0] == "normalization" else None, x[-2], x[-1]) for x in TC.rewrite_receipts(pw)), key=lambda t: (t[2], t[3]))
+            if got != sorted(exp, key=lambda t: (t[2], t[3])):
+                X.classify(ctx, findings, CLASSES, case, f"parse_with_warnings receipts {got} != rewrites in the text {exp}", "site-receipts")
+            n_lex = [e for e in exp if e[0] == "normalization"]
+            n_par = [e for e in exp if e[0] != "normalization"]
+            try:
+                v = asyncio.run(ValidateTool().execute(content=text, schema="META"))
+                reps = [x for x in (v.get("repairs") or []) if isinstance(x, dict)]
+                for (kind, orig, ln, col) in exp:
+                    hit = [x for x in reps if x.get("line") == ln and x.get("column") == col and (x.get("type") == kind or x.get("subtype") == kind)
+                           and (orig is None or x.get("original") == orig)]
+                    if len(hit) != 1:
+                        X.classify(ctx, findings, CLASSES, case, f"octave_validate.repairs has {len(hit)} entries for the {kind} rewrite {orig!r} at {ln}:{col}", "site-validate")
+                for lenient in (False, True):
+                    p = os.path.join(td, "s.oct.md")
+                    w = asyncio.run(WriteTool().execute(target_path=p, content=text, corrections_only=True, lenient=lenient))
+                    cor = [x for x in (w.get("corrections") or []) if isinstance(x, dict)]
+                    c2 = dict(case, lenient=lenient, n_parser_rewrites=len(n_par))
+                    for (kind, orig, ln, col) in n_lex:
+                        hit = [x for x in cor if x.get("line") == ln and x.get("column") == col and x.get("before") == orig]
+                        if w.get("status") == "success" and len(hit) != 1:
+                            X.classify(ctx, findings, CLASSES, c2, f"octave_write(corrections_only, lenient={lenient}).corrections has {len(hit)} entries for {orig!r} at {ln}:{col}", "site-write")
+                    if lenient and w.get("status") == "success" and len(cor) < len(exp):
+                        X.classify(ctx, findings, CLASSES, c2, f"octave_write(lenient=true).corrections lists {len(cor)} entries for {len(exp)} rewrites", "site-write-count")
+            except BaseException as e:  # noqa: BLE001
+                ctx.count("tool_raised:" + type(e).__name__)
+
+
 def run(ctx: vlib.Ctx):
     ctx.rule = ("content-model documents x seeded subsets of rewrite sites (all freedoms at p in {0.15,0.5,0.9}; aliases only; quotes/triple quotes only; "
                 "multi-word only; aliases+layout); expected receipts come from the renderer (positions from its own line/column arithmetic); "
@@ -124,6 +185,7 @@ def run(ctx: vlib.Ctx):
                         X.classify(ctx, findings, CLASSES, case, "corrections_only wrote a file", "dry-run-wrote")
             except BaseException as e:  # noqa: BLE001
                 ctx.count("tool_raised:" + type(e).__name__)
+    site_matrix(ctx, findings)
     ctx.assumptions = ["'rewrite receipts' are read as in DESIGN.md §7 C07: lexer normalization / repair_candidate records and the lenient_parse subtypes that "
                        "transform text; advisories (duplicate_key, deep_nesting, spec_violation/*) are not rewrites",
                        "step-level receipt lemma is proved (Props/C07); the document-level bijection is an open proof target"]
